@@ -44,12 +44,12 @@ def _witnesses(base_cfg, wd, with_al):
     base = _strip_props(open(os.path.join(vlib.SPECS, base_cfg)).read())
     base = re.sub(r"(?m)^  MaxChunks = \d+", "  MaxChunks = 2", base)  # witnesses exist already in the smallest instance
     jobs = {}
-    names = list(WITNESSES) + (["W_NoAlClosed"] if with_al else [])
-    remote_w = {"W_NoResume", "W_NoLossInFlight", "W_NoRemoteRestart", "W_NoAlClosed"}
+    names = list(WITNESSES) + ["W_NoStatusAheadOfOutput"] + (["W_NoAlClosed"] if with_al else [])
+    remote_w = {"W_NoResume", "W_NoLossInFlight", "W_NoRemoteRestart", "W_NoAlClosed", "W_NoStatusAheadOfOutput"}
     for w in names:
         scen = '{"remote"}' if w in remote_w else '{"local"}'
         text = base.replace('Scenarios = {"local", "remote"}', "Scenarios = " + scen)
-        if w == "W_NoAlClosed":
+        if w in ("W_NoAlClosed", "W_NoStatusAheadOfOutput"):
             text = text.replace("AlReader = FALSE", "AlReader = TRUE")
         jobs[w] = text + "INVARIANT %s\n" % w
     # the lead behind assumption A_CreateBeforePoll (see Results.tla) must be there when the assumption is dropped
@@ -68,7 +68,7 @@ def _witnesses(base_cfg, wd, with_al):
         if name == "A_CreateBeforePoll_lead":
             ok = r.violated == "NoEarlyEnd"
         elif name.startswith("KF_"):
-            ok = bool(re.search(r"Temporal propert(y EndsWhenDone was|ies were) violated", r.output)) and '"Canceled"' in r.output
+            ok = bool(re.search(r"Temporal propert(y|ies) [^\n]*EndsWhenDone[^\n]* (was|were) violated|Temporal properties were violated", r.output)) and '"Canceled"' in r.output
         else:
             ok = r.violated == name
         return name, ok, r
@@ -90,8 +90,10 @@ def run(tier, seed, replay=None):
     t0 = time.time()
     ex = cf.ThreadPoolExecutor(max_workers=4)
     fw = ex.submit(_witnesses, "Results_quick.cfg", wd, not quick and not replay)   # independent of the main run: start at once
-    # thorough: a second exhaustive run with a client reading the mirrored copy on the submitting node (reader "al")
-    fal = None if quick or replay else ex.submit(vlib.tlc, "Results", "Results_al.cfg", wd, 8, 2400)
+    # a second exhaustive run with a client reading the mirrored copy on the submitting node (reader "al"): there the
+    # final status can be mirrored before the tail of the output (quick: no faults; thorough: one fault)
+    alcfg = "Results_alq.cfg" if quick else "Results_al.cfg"
+    fal = None if replay else ex.submit(vlib.tlc, "Results", alcfg, wd, 4 if quick else 8, 2400)
     r = vlib.tlc("Results", cfg, wd, timeout=2400, heap="12g", workers=min(8, vlib.NCPU))
     vlib.log("TLC %s: %d distinct / %d generated states, depth %d, %.0fs" % (cfg, r.distinct, r.generated, r.depth, r.wall))
     if not r.ok:
@@ -133,9 +135,9 @@ def run(tier, seed, replay=None):
     vlib.log("witnesses found: %d (%.0fs since start)" % (len(wit), time.time() - t0))
     ral = fal.result() if fal else None
     if ral is not None:
-        vlib.log("TLC Results_al.cfg: %d distinct / %d generated states, %.0fs" % (ral.distinct, ral.generated, ral.wall))
+        vlib.log("TLC %s: %d distinct / %d generated states, %.0fs" % (alcfg, ral.distinct, ral.generated, ral.wall))
         if not ral.ok:
-            raise vlib.Inconclusive("TLC did not succeed on Results_al.cfg (exit %s, violated=%s):\n%s" % (ral.exit, ral.violated, ral.output[-3000:]))
+            raise vlib.Inconclusive("TLC did not succeed on %s (exit %s, violated=%s):\n%s" % (alcfg, ral.exit, ral.violated, ral.output[-3000:]))
     ex.shutdown()
 
     inconclusive = []
@@ -181,7 +183,7 @@ def run(tier, seed, replay=None):
         "spec_exhaustive_within_constants": True,
         "vectors": nvec, "fault_schedules": nsched, "counters": counters, "witnesses": wit,
         "tlc": [{"spec": "Results.tla", "cfg": cfg, "generated": r.generated, "distinct": r.distinct, "depth": r.depth, "wall_s": round(r.wall, 1)}] +
-               ([{"spec": "Results.tla", "cfg": "Results_al.cfg", "generated": ral.generated, "distinct": ral.distinct, "depth": ral.depth,
+               ([{"spec": "Results.tla", "cfg": alcfg, "generated": ral.generated, "distinct": ral.distinct, "depth": ral.depth,
                   "wall_s": round(ral.wall, 1)}] if ral else []),
     }
     return v.finish("model_checking", cov, assumptions=[
